@@ -11,7 +11,7 @@ void multiruncrypt_file(u8_t id, Aesmode &mode)
   iobuffer->wait_buffer(id); // the buffer belongs to the I/O thread until it is READY (or INV)
   for (u8_t *block = iobuffer->require_buffer_entry(id); block != NULL; block = iobuffer->require_buffer_entry(id))
   WV_LOOP(__CPROVER_assigns(block, wv_c->state, wv_c->lock.held, wv_b->now, wv_b->total, wv_b->tail, wv_b->isfinal, WV_ARR(wv_b->b), wv_pl, __CPROVER_object_whole(mode))
-          __CPROVER_loop_invariant(WV_WORKER_INV && wv_pl.order_ok && WV_TAG_OF(mode) == __CPROVER_loop_entry(WV_TAG_OF(mode)))
+          __CPROVER_loop_invariant(WV_WORKER_INV && wv_pl.order_ok && (wv_pl.runs > 0 ==> wv_pl.last_mode == mode) && WV_TAG_OF(mode) == __CPROVER_loop_entry(WV_TAG_OF(mode)))
           __CPROVER_loop_invariant(block != NULL ? (wv_c->state == READY && wv_b->now >= 1 && block == wv_b->b[wv_b->now - 1] && block == wv_pl.last_entry && wv_pl.runs + 1 == wv_pl.entries)
                                                  : (wv_c->state == INV && wv_pl.runs == wv_pl.entries)))
   {
